@@ -8,10 +8,16 @@
    test (5 base-128 digits, numBytes length octets, the bytes of an OID).  A counter of
    parseTagAndLength calls is threaded through (the cost statement of C18).  No proofs in this file.
 
-   Not covered (never reached for the schemas used here): SEQUENCE OF / SET OF slices, strings, times,
-   bool, int, enumerated, flag, the ANY interface, application / private classes, default values.
+   Second part (for the schemas of Gen/Asn1Schemas.v): int (64-bit, with default:n), bool, time.Time,
+   the ANY interface, SEQUENCE OF / SET OF slices (parseSequenceOf: a counting pass, then one parseField
+   per element).  time.Parse / Time.Format and utf8.Valid are library functions of their own; they appear
+   here as acceptance predicates (utcTime_ok, generalizedTime_ok, utf8_valid), derived from their source and
+   tied by the differential run, and a time value stays the byte string it was read from.
+
+   Not covered (never reached for the schemas used here): Go string fields and their parameters (ia5,
+   utf8, printable, numeric), enumerated, flag, application / private classes, int32.
    Error classes: 1 truncated, 2 syntax (indefinite, non-minimal ...), 3 structural (tags do not match,
-   length too large ...), 4 integer not minimal / empty, 5 bit string, 6 OID.                        *)
+   length too large ...), 4 integer not minimal / empty, 5 bit string, 6 OID, 7 bool, 8 time, 9 string. *)
 From Coq Require Import List NArith ZArith Bool Arith.
 From GmsmVerif Require Import Lib.Outcome Dec.Access.
 Import ListNotations.
@@ -21,12 +27,22 @@ Record tagAndLength := mkTL { t_class : N; t_tag : N; t_length : N; t_isCompound
 
 Definition ClassUniversal : N := 0.
 Definition ClassContextSpecific : N := 2.
+Definition TagBoolean : N := 1.
 Definition TagInteger : N := 2.
 Definition TagBitString : N := 3.
 Definition TagOctetString : N := 4.
 Definition TagOID : N := 6.
 Definition TagSequence : N := 16.
 Definition TagSet : N := 17.
+Definition TagUTF8String : N := 12.
+Definition TagNumericString : N := 18.
+Definition TagPrintableString : N := 19.
+Definition TagT61String : N := 20.
+Definition TagIA5String : N := 22.
+Definition TagUTCTime : N := 23.
+Definition TagGeneralizedTime : N := 24.
+Definition TagGeneralString : N := 27.
+Definition TagBMPString : N := 30.
 
 (* func parseBase128Int(bytes, initOffset) (ret, offset, err); [left] = 5 - shifted *)
 Fixpoint parseBase128Int_go (left : nat) (first : bool) (bytes : list byte) (offset : nat) (ret64 : N)
@@ -102,6 +118,124 @@ Definition parseBigInt (bytes : list byte) : outcome Z :=
   then Ok (- (Z.of_N (be_value (map (fun b => N.lxor b 255) bytes)) + 1))%Z
   else Ok (Z.of_N (be_value bytes)).
 
+(* func parseBool(bytes) *)
+Definition parseBool (bytes : list byte) : outcome bool :=
+  if negb (Nat.eqb (length bytes) 1) then Err 7 else
+  do b0 <- at_ bytes 0;
+  if (b0 =? 0)%N then Ok false else if (b0 =? 255)%N then Ok true else Err 7.
+
+(* func parseInt64(bytes): the sign-extended value *)
+Definition parseInt64 (bytes : list byte) : outcome Z :=
+  do _ <- checkInteger bytes;
+  if Nat.ltb 8 (length bytes) then Err 3 else                (* integer too large *)
+  do b0 <- at_ bytes 0;
+  if (N.land b0 128 =? 128)%N
+  then Ok (- (Z.of_N (be_value (map (fun b => N.lxor b 255) bytes)) + 1))%Z
+  else Ok (Z.of_N (be_value bytes)).
+
+(* ---------- strings of the ANY case: parsePrintableString, parseNumericString, parseIA5String, parseUTF8String,
+   parseBMPString accept or reject; the string is the bytes ------------------------------------------------ *)
+Definition between (lo hi b : N) : bool := ((lo <=? b)%N && (b <=? hi)%N)%bool.
+
+(* func isPrintable(b, allowAsterisk, allowAmpersand) *)
+Definition isPrintable (b : byte) : bool :=
+  (between 97 122 b || between 65 90 b || between 48 57 b || between 39 41 b || between 43 47 b ||
+   (b =? 32)%N || (b =? 58)%N || (b =? 61)%N || (b =? 63)%N || (b =? 42)%N || (b =? 38)%N)%bool.
+(* func isNumeric(b) *)
+Definition isNumeric (b : byte) : bool := (between 48 57 b || (b =? 32)%N)%bool.
+
+(* unicode/utf8.Valid: the accept ranges of its table (RFC 3629) *)
+Definition cont (c : byte) : bool := between 128 191 c.
+Fixpoint utf8_valid (l : list byte) : bool :=
+  match l with
+  | [] => true
+  | a :: r =>
+    if (a <? 128)%N then utf8_valid r else
+    if between 194 223 a then
+      match r with c1 :: r1 => (cont c1 && utf8_valid r1)%bool | _ => false end
+    else if between 224 239 a then
+      match r with
+      | c1 :: c2 :: r2 =>
+        ((if (a =? 224)%N then between 160 191 c1 else if (a =? 237)%N then between 128 159 c1 else cont c1)
+         && cont c2 && utf8_valid r2)%bool
+      | _ => false
+      end
+    else if between 240 244 a then
+      match r with
+      | c1 :: c2 :: c3 :: r3 =>
+        ((if (a =? 240)%N then between 144 191 c1 else if (a =? 244)%N then between 128 143 c1 else cont c1)
+         && cont c2 && cont c3 && utf8_valid r3)%bool
+      | _ => false
+      end
+    else false
+  end.
+
+(* ---------- times: func parseUTCTime, parseGeneralizedTime = time.Parse with the layouts 0601021504Z0700,
+   060102150405Z0700, 20060102150405.999999999Z0700, followed by the test that Format gives the input back.
+   What passes both: fixed-width decimal fields in range, a day that exists in that month and year, for the
+   zone either Z or a sign and hhmm with hh <= 24, mm < 60 and not both zero, for the fraction (generalized
+   only) a period and one to nine digits the last of which is not 0. ------------------------------------- *)
+Definition isDigit (b : byte) : bool := between 48 57 b.
+Definition num2 (a b : byte) : N := ((a - 48) * 10 + (b - 48))%N.
+Definition daysIn (month year : N) : N :=
+  if (month =? 2)%N then
+    (if ((year mod 4 =? 0)%N && (negb (year mod 100 =? 0)%N || (year mod 400 =? 0)%N))%bool then 29 else 28)%N
+  else if ((month =? 4)%N || (month =? 6)%N || (month =? 9)%N || (month =? 11)%N)%bool then 30%N else 31%N.
+
+Definition zone_ok (r : list byte) : bool :=
+  match r with
+  | [z] => (z =? 90)%N
+  | [sg; h1; h2; m1; m2] =>
+    (((sg =? 43)%N || (sg =? 45)%N) && forallb isDigit [h1; h2; m1; m2] &&
+     (num2 h1 h2 <=? 24)%N && (num2 m1 m2 <? 60)%N && negb ((num2 h1 h2 =? 0)%N && (num2 m1 m2 =? 0)%N))%bool
+  | _ => false
+  end.
+
+(* month, day, hour, minute after the year *)
+Definition mdhm_ok (year : N) (mo1 mo2 d1 d2 h1 h2 mi1 mi2 : byte) : bool :=
+  (forallb isDigit [mo1; mo2; d1; d2; h1; h2; mi1; mi2] &&
+   (1 <=? num2 mo1 mo2)%N && (num2 mo1 mo2 <=? 12)%N &&
+   (1 <=? num2 d1 d2)%N && (num2 d1 d2 <=? daysIn (num2 mo1 mo2) year)%N &&
+   (num2 h1 h2 <? 24)%N && (num2 mi1 mi2 <? 60)%N)%bool.
+
+Definition utcTime_ok (s : list byte) : bool :=
+  match s with
+  | y1 :: y2 :: mo1 :: mo2 :: d1 :: d2 :: h1 :: h2 :: mi1 :: mi2 :: r =>
+    let yy := num2 y1 y2 in
+    let year := (if (69 <=? yy)%N then 1900 + yy else 2000 + yy)%N in
+    (isDigit y1 && isDigit y2 && mdhm_ok year mo1 mo2 d1 d2 h1 h2 mi1 mi2 &&
+     (zone_ok r ||
+      match r with
+      | s1 :: s2 :: r' => (isDigit s1 && isDigit s2 && (num2 s1 s2 <? 60)%N && zone_ok r')%bool
+      | _ => false
+      end))%bool
+  | _ => false
+  end.
+
+(* the digits of a fraction: (how many, is the last one 0, what follows them) *)
+Fixpoint frac_digits (r : list byte) (n : nat) (lastZero : bool) : nat * bool * list byte :=
+  match r with
+  | d :: r' => if isDigit d then frac_digits r' (S n) (d =? 48)%N else (n, lastZero, r)
+  | [] => (n, lastZero, r)
+  end.
+
+Definition generalizedTime_ok (s : list byte) : bool :=
+  match s with
+  | y1 :: y2 :: y3 :: y4 :: mo1 :: mo2 :: d1 :: d2 :: h1 :: h2 :: mi1 :: mi2 :: s1 :: s2 :: r =>
+    let year := (num2 y1 y2 * 100 + num2 y3 y4)%N in
+    (forallb isDigit [y1; y2; y3; y4; s1; s2] && mdhm_ok year mo1 mo2 d1 d2 h1 h2 mi1 mi2 &&
+     (num2 s1 s2 <? 60)%N &&
+     match r with
+     | dot :: r' =>
+       if (dot =? 46)%N then
+         let '(n, lastZero, r'') := frac_digits r' 0 false in
+         (Nat.leb 1 n && Nat.leb n 9 && negb lastZero && zone_ok r'')%bool
+       else zone_ok r
+     | [] => false
+     end)%bool
+  | _ => false
+  end.
+
 (* func parseBitString(bytes) (BitString, error): (bytes, bit length) *)
 Definition parseBitString (bytes : list byte) : outcome (list byte * nat) :=
   if Nat.eqb (length bytes) 0 then Err 5 else
@@ -140,6 +274,11 @@ Inductive kind : Type :=
 | KBitString                                (* asn1.BitString *)
 | KOID                                      (* asn1.ObjectIdentifier *)
 | KRawValue                                 (* asn1.RawValue *)
+| KInt (dflt : option Z)                    (* int, int64 (8 bytes); dflt: the default:n of the field *)
+| KBool                                     (* bool *)
+| KTime                                     (* time.Time *)
+| KAny                                      (* the empty interface *)
+| KSeqOf (setName : bool) (elem : kind)     (* slice of elem (not bytes); setName: a named slice type ending in SET *)
 | KStruct (rawContent : bool) (fields : list (fparams * kind)).   (* struct; rawContent: first field is asn1.RawContent *)
 
 Inductive value : Type :=
@@ -149,6 +288,11 @@ Inductive value : Type :=
 | VOID (arcs : list N)
 | VRaw (class tag : N) (isCompound : bool) (bytes fullBytes : list byte)
 | VStruct (raw : list byte) (fields : list value)
+| VBool (b : bool)
+| VTime (generalized : bool) (text : list byte)
+| VStr (tag : N) (text : list byte)         (* a string in an ANY *)
+| VNil                                      (* an ANY left nil *)
+| VSeq (elems : list value)
 | VAbsent.                                  (* an optional field left at its zero value *)
 
 (* func getUniversalType(t): (matchAny, tagNumber, isCompound) *)
@@ -159,6 +303,11 @@ Definition getUniversalType (k : kind) : bool * N * bool :=
   | KBitString => (false, TagBitString, false)
   | KOID => (false, TagOID, false)
   | KRawValue => (true, 0%N, false)          (* tag -1: never compared, matchAny *)
+  | KInt _ => (false, TagInteger, false)
+  | KBool => (false, TagBoolean, false)
+  | KTime => (false, TagUTCTime, false)
+  | KAny => (false, 0%N, false)              (* ok = false: see parseSequenceOf; parseField never asks *)
+  | KSeqOf setName _ => (false, if setName then TagSet else TagSequence, true)
   | KStruct _ _ => (false, TagSequence, true)
   end.
 
@@ -199,6 +348,9 @@ Definition field_header (uni : bool * N * bool) (raw : bool) (params : fparams) 
     (if p_optional params then Ok (HAbsent steps) else Err 3)
   else
   let '(matchAny, universalTag, compoundType) := uni in
+  (* time.Time: UTCTime and GeneralizedTime both map to it *)
+  let universalTag := if ((universalTag =? TagUTCTime)%N && (t_tag t =? TagGeneralizedTime)%N &&
+                          (t_class t =? ClassUniversal)%N)%bool then TagGeneralizedTime else universalTag in
   let universalTag := if p_set params then TagSet else universalTag in
   let implicit := (negb (p_explicit params) && match p_tag params with Some _ => true | None => false end)%bool in
   let matchAnyClassAndTag := (matchAny && negb implicit)%bool in
@@ -212,12 +364,76 @@ Definition field_header (uni : bool * N * bool) (raw : bool) (params : fparams) 
   do innerBytes <- slice bytes offset (offset + N.to_nat (t_length t));
   Ok (HElem t innerBytes (offset + N.to_nat (t_length t)) steps).
 
+(* setDefaultValue on an optional field that is not there: an int with default:n gets n *)
+Definition absent_value (k : kind) : value :=
+  match k with KInt (Some d) => VInt d | _ => VAbsent end.
+
+Definition is_any (k : kind) : bool := match k with KAny => true | _ => false end.
+
+(* parseField, the ANY case (after the end-of-data test) *)
+Definition parseAny (bytes : list byte) (initOffset : nat) (steps : N) : outcome (value * nat * N) :=
+  do '(t, offset) <- parseTagAndLength bytes initOffset;
+  let steps := (steps + 1)%N in
+  if invalidLength offset (t_length t) (length bytes) then Err 1 else
+  do result <-
+    (if (negb (t_isCompound t) && (t_class t =? ClassUniversal)%N)%bool then
+       do innerBytes <- slice bytes offset (offset + N.to_nat (t_length t));
+       let tag := t_tag t in
+       if (tag =? TagPrintableString)%N then (if forallb isPrintable innerBytes then Ok (VStr tag innerBytes) else Err 9)
+       else if (tag =? TagNumericString)%N then (if forallb isNumeric innerBytes then Ok (VStr tag innerBytes) else Err 9)
+       else if (tag =? TagIA5String)%N then (if forallb (fun b => (b <? 128)%N) innerBytes then Ok (VStr tag innerBytes) else Err 9)
+       else if (tag =? TagT61String)%N then Ok (VStr tag innerBytes)
+       else if (tag =? TagUTF8String)%N then (if utf8_valid innerBytes then Ok (VStr tag innerBytes) else Err 9)
+       else if (tag =? TagInteger)%N then (do z <- parseInt64 innerBytes; Ok (VInt z))
+       else if (tag =? TagBitString)%N then (do '(b, n) <- parseBitString innerBytes; Ok (VBits b n))
+       else if (tag =? TagOID)%N then (do o <- parseObjectIdentifier innerBytes; Ok (VOID o))
+       else if (tag =? TagUTCTime)%N then (if utcTime_ok innerBytes then Ok (VTime false innerBytes) else Err 8)
+       else if (tag =? TagGeneralizedTime)%N then (if generalizedTime_ok innerBytes then Ok (VTime true innerBytes) else Err 8)
+       else if (tag =? TagOctetString)%N then Ok (VBytes innerBytes)
+       else if (tag =? TagBMPString)%N then (if Nat.eqb (length innerBytes mod 2) 0 then Ok (VStr tag innerBytes) else Err 9)
+       else Ok VNil
+     else Ok VNil);
+  Ok (result, offset + N.to_nat (t_length t), steps).
+
+(* the tag a slice element is compared with in the counting pass of parseSequenceOf *)
+Definition seq_norm_tag (tag : N) : N :=
+  if ((tag =? TagIA5String)%N || (tag =? TagGeneralString)%N || (tag =? TagT61String)%N || (tag =? TagUTF8String)%N ||
+      (tag =? TagNumericString)%N || (tag =? TagBMPString)%N)%bool then TagPrintableString
+  else if ((tag =? TagGeneralizedTime)%N || (tag =? TagUTCTime)%N)%bool then TagUTCTime
+  else tag.
+
+(* func parseSequenceOf, first loop "for offset := 0; offset < len(bytes); { ... numElements++ }" *)
+Fixpoint count_loop (fuel : nat) (uni : bool * N * bool) (bytes : list byte) (offset numElements : nat) (steps : N)
+  : outcome (nat * N) :=
+  if Nat.ltb offset (length bytes) then
+    match fuel with
+    | O => Hang
+    | S f =>
+      do '(t, offset) <- parseTagAndLength bytes offset;
+      let tag := seq_norm_tag (t_tag t) in
+      let '(matchAny, expectedTag, compoundType) := uni in
+      if (negb matchAny && (negb (t_class t =? ClassUniversal)%N || negb (Bool.eqb (t_isCompound t) compoundType) ||
+                            negb (tag =? expectedTag)%N))%bool then Err 3 else       (* sequence tag mismatch *)
+      if invalidLength offset (t_length t) (length bytes) then Err 1 else            (* truncated sequence *)
+      count_loop f uni bytes (offset + N.to_nat (t_length t)) (S numElements) (steps + 1)%N
+    end
+  else Ok (numElements, steps).
+
+(* which parser a time.Time field gets: universalTag after the time and set adjustments of parseField *)
+Definition time_is_utc (params : fparams) (t : tagAndLength) : bool :=
+  (negb (p_set params) && negb ((t_tag t =? TagGeneralizedTime)%N && (t_class t =? ClassUniversal)%N))%bool.
+
 (* func parseField(v, bytes, initOffset, params) (offset, err): (value, offset, parseTagAndLength calls) *)
 Fixpoint parseField (k : kind) (params : fparams) (bytes : list byte) (initOffset : nat) (steps : N)
   : outcome (value * nat * N) :=
+  if is_any k then
+    (if Nat.eqb initOffset (length bytes)
+     then (if p_optional params then Ok (VAbsent, initOffset, steps) else Err 1)
+     else parseAny bytes initOffset steps)
+  else
   do h <- field_header (getUniversalType k) (is_raw k) params bytes initOffset steps;
   match h with
-  | HAbsent steps => Ok (VAbsent, initOffset, steps)
+  | HAbsent steps => Ok (absent_value k, initOffset, steps)
   | HElem t innerBytes offset steps =>
     match k with
     | KRawValue =>
@@ -225,7 +441,14 @@ Fixpoint parseField (k : kind) (params : fparams) (bytes : list byte) (initOffse
       Ok (VRaw (t_class t) (t_tag t) (t_isCompound t) innerBytes full, offset, steps)
     | KOID => do o <- parseObjectIdentifier innerBytes; Ok (VOID o, offset, steps)
     | KBitString => do '(b, n) <- parseBitString innerBytes; Ok (VBits b n, offset, steps)
+    | KTime =>
+      if time_is_utc params t
+      then (if utcTime_ok innerBytes then Ok (VTime false innerBytes, offset, steps) else Err 8)
+      else (if generalizedTime_ok innerBytes then Ok (VTime true innerBytes, offset, steps) else Err 8)
     | KBigInt => do z <- parseBigInt innerBytes; Ok (VInt z, offset, steps)
+    | KBool => do b <- parseBool innerBytes; Ok (VBool b, offset, steps)
+    | KInt _ => do z <- parseInt64 innerBytes; Ok (VInt z, offset, steps)
+    | KAny => Err 3                           (* not reached: is_any *)
     | KOctets => Ok (VBytes innerBytes, offset, steps)
     | KStruct rawContent fields =>
       do raw <- (if rawContent then slice bytes initOffset offset else Ok []);
@@ -239,6 +462,19 @@ Fixpoint parseField (k : kind) (params : fparams) (bytes : list byte) (initOffse
              fields_loop r innerOffset' steps' (v :: acc)
            end) fields 0 steps [];
       Ok (VStruct raw vals, offset, steps)
+    | KSeqOf _ elem =>
+      (* func parseSequenceOf(innerBytes, sliceType, elemType) *)
+      if is_any elem then Err 3 else            (* unknown Go type for slice *)
+      do '(numElements, steps) <- count_loop (length innerBytes) (getUniversalType elem) innerBytes 0 0 steps;
+      do '(vals, steps) <-
+        (fix elems_loop (n : nat) (off : nat) (steps : N) (acc : list value) : outcome (list value * N) :=
+           match n with
+           | O => Ok (rev acc, steps)
+           | S n' =>
+             do '(v, off', steps') <- parseField elem noParams innerBytes off steps;
+             elems_loop n' off' steps' (v :: acc)
+           end) numElements 0 steps [];
+      Ok (VSeq vals, offset, steps)
     end
   end.
 
@@ -252,7 +488,16 @@ Definition Unmarshal (k : kind) (params : fparams) (b : list byte) : outcome (va
 Fixpoint ksize (k : kind) : nat :=
   match k with
   | KStruct _ fs => S (list_sum (map (fun pf => ksize (snd pf)) fs))
+  | KSeqOf _ e => S (ksize e)
   | _ => 1
+  end.
+
+(* parseTagAndLength calls per input byte that slices can cause (0 for a schema without slices) *)
+Fixpoint kweight (k : kind) : nat :=
+  match k with
+  | KStruct _ fs => list_sum (map (fun pf => kweight (snd pf)) fs)
+  | KSeqOf _ e => kweight e + ksize e + 1
+  | _ => 0
   end.
 
 (* a decoded value has the shape of its Go type (optional fields may be absent) *)
@@ -263,6 +508,12 @@ Fixpoint conforms (k : kind) (v : value) : bool :=
   | KBitString, VBits _ _ => true
   | KOID, VOID _ => true
   | KRawValue, VRaw _ _ _ _ _ => true
+  | KInt _, VInt _ => true
+  | KBool, VBool _ => true
+  | KTime, VTime _ _ => true
+  | KAny, _ => true
+  | KSeqOf _ e, VSeq vs =>
+    (fix go (vs : list value) : bool := match vs with [] => true | v :: r => (conforms e v && go r)%bool end) vs
   | KStruct _ fs, VStruct _ vs =>
     (fix go (fs : list (fparams * kind)) (vs : list value) : bool :=
        match fs, vs with
